@@ -67,6 +67,13 @@ def layer_region_rule(M, rep, R1):
 
 
 
+def view_transform(c):
+    """DataView's index transformation: by name, else the private helper both DataView._read_data and _write_data call"""
+    from .common import private_helper
+    return private_helper(c, "DataView", "_transform_coordinates", [("DataView", "_read_data", "methods"), ("DataView", "_write_data", "methods")],
+                          pick=lambda h: h.cls is not None and h.cls.name == "DataView")
+
+
 def run(M, rep, tier, only=None):
     ctx = Ctx(M, coarse=False)
     ctx.cfg.compose = False
@@ -88,7 +95,7 @@ def run(M, rep, tier, only=None):
     cctx = Ctx(M)
     ictx = Ctx(M, coarse=False)
     ictx.cfg.compose = False
-    tcf = ctx.member("DataView", "_transform_coordinates")
+    tcf = view_transform(ctx)
     if tcf is not None:
         ictx.cfg.opaque[tcf.qual] = ("py", "tuple")
     for nm in ("_read_data", "_write_data"):
@@ -126,7 +133,7 @@ def run(M, rep, tier, only=None):
     layer_region_rule(M, rep, R1)
 
     # ---------------------------------------------------------------- R2a element transformation
-    f = ctx.member("DataView", "_transform_coordinates")
+    f = view_transform(ctx)
     if f is None:
         rep.bad(R2, "DataView._transform_coordinates", "required mechanism not found")
     else:
@@ -231,7 +238,8 @@ def run(M, rep, tier, only=None):
         rep.stats["transform_groups"] = len(groups)
 
     # ---------------------------------------------------------------- R2b ellipsis / padding expansion
-    g = ctx.member("DataView", "_expand_user_slices")
+    from .common import private_helper
+    g = private_helper(ctx, "DataView", "_expand_user_slices", [view_transform(ctx)])
     if g is None:
         rep.bad(R2, "DataView._expand_user_slices", "required mechanism not found")
     else:
@@ -280,7 +288,9 @@ def run(M, rep, tier, only=None):
                         hit.append(p)
                 key = "expand/rank%d/%r" % (rank, us)
                 if len(hit) != 1:
-                    rep.bad(R2, key, "%d rows apply to %r" % (len(hit), us), site=g.file)
+                    rep.bad(R2, key, ("no abstract path of the index expansion is consistent with the index %r (a guard fails or is "
+                                      "contradicted on every path)" % (us,) if not hit else
+                                      "%d abstract paths of the index expansion apply to %r at once" % (len(hit), us)), site=g.file)
                     continue
                 p = hit[0]
                 if p.terminal[0] == "raise":
@@ -333,7 +343,11 @@ def run(M, rep, tier, only=None):
             if sl is not None and any(s is not None and s.stop is None for s in sl if s is not None):
                 continue
             if len(hit) != 1:
-                rep.bad(R3, key, "%d rows apply" % len(hit), site=init.file)
+                rep.bad(R3, key, ("no abstract path of DataView.__init__ is consistent with this window: every path either contradicts "
+                                  "one of its own guards or evaluates a guard that fails on it (a comparison with None, a missing "
+                                  "attribute) -- constructing the view raises or its validity is undefined" if not hit else
+                                  "%d abstract paths of DataView.__init__ apply to this window at once: its validity is not a function "
+                                  "of window and extent" % len(hit)), site=init.file)
                 continue
             p = hit[0]
             v = p.heap.get((("self",), "_valid"))
